@@ -30,13 +30,15 @@ Times(cfg) == {Threshold(cfg) - b : b \in Before} \cup {Threshold(cfg) + a : a \
 
 \* zero = TRUE: the containers without any lease (they get cases of their own: such containers
 \* cannot be produced through the server API and distort the crawler's counters)
+\* (a cancel secret can only be shared by two leases or more)
 ShareClasses(cfg, zero) ==
-  {[type |-> t, leases |-> l] : t \in Types,
-     l \in {x \in SUBSET Times(cfg) : IF zero THEN x = {} ELSE (x # {} /\ Cardinality(x) <= MaxLeases)}}
+  {c \in {[type |-> t, leases |-> l, sec |-> q] : t \in Types, q \in {"distinct", "shared"},
+            l \in {x \in SUBSET Times(cfg) : IF zero THEN x = {} ELSE (x # {} /\ Cardinality(x) <= MaxLeases)}} :
+     c.sec = "shared" => Cardinality(c.leases) >= 2}
 
 SharesOf(cfg, zero) ==
   LET sq == SetToSeq(ShareClasses(cfg, zero)) IN
-  {[id |-> i, type |-> sq[i].type, leases |-> sq[i].leases] : i \in 1..Len(sq)}
+  {[id |-> i, type |-> sq[i].type, sec |-> sq[i].sec, leases |-> sq[i].leases] : i \in 1..Len(sq)}
 
 Case(cfg, zero) ==
   LET sh == SharesOf(cfg, zero)
